@@ -32,9 +32,22 @@ SUBPATH = VERIF if os.path.realpath(_REPO) == "/repo" else _REPO + os.pathsep + 
 OUT = os.environ.get("VERIF_OUT", VERIF)      # where evidence/ and replays/ are written
 
 
+def _limits():
+    """address-space cap for the sub-processes that run repository code (a changed tree must not be able to exhaust the machine)"""
+    try:
+        import resource
+        cap = 24 * 2 ** 30
+        resource.setrlimit(resource.RLIMIT_AS, (cap, cap))
+    except Exception:
+        pass
+
+
 def conc(req, timeout=900):
-    p = subprocess.run([VENV_PY, "-m", "rt.conc"], input=json.dumps(req), capture_output=True, text=True, cwd=VERIF,
-                       timeout=timeout, env=dict(os.environ, PYTHONPATH=SUBPATH, PYTHONDONTWRITEBYTECODE="1"))
+    try:
+        p = subprocess.run([VENV_PY, "-m", "rt.conc"], input=json.dumps(req), capture_output=True, text=True, cwd=VERIF,
+                           timeout=timeout, env=dict(os.environ, PYTHONPATH=SUBPATH, PYTHONDONTWRITEBYTECODE="1"), preexec_fn=_limits)
+    except subprocess.TimeoutExpired:
+        return {"error": f"bounded search exceeded {timeout} s"}
     if p.returncode != 0 or not p.stdout.strip():
         return {"error": (p.stderr or "no output")[-800:]}
     try:
@@ -239,13 +252,18 @@ def main():
     rt_info = None
     rt_mod = os.path.join(VERIF, "rt", f"{prop.lower()}.py")
     if os.path.exists(rt_mod) and not a.no_rt:
-        p = subprocess.run([VENV_PY, "-m", f"rt.{prop.lower()}", "--tier", tier, "--seed", str(seed)], capture_output=True, text=True,
-                           cwd=VERIF, env=dict(os.environ, PYTHONPATH=SUBPATH, PYTHONDONTWRITEBYTECODE="1"),
-                           timeout=3 * 3600)
+        rt_budget = 45 * 60 if tier == "quick" else 4 * 3600
         try:
-            rt_info = json.loads(p.stdout.strip().splitlines()[-1])
+            p = subprocess.run([VENV_PY, "-m", f"rt.{prop.lower()}", "--tier", tier, "--seed", str(seed)], capture_output=True, text=True,
+                               cwd=VERIF, env=dict(os.environ, PYTHONPATH=SUBPATH, PYTHONDONTWRITEBYTECODE="1"),
+                               timeout=rt_budget, preexec_fn=_limits)
+            out_text, err_text = p.stdout, p.stderr
+        except subprocess.TimeoutExpired:
+            out_text, err_text = "", f"workload exceeded its budget of {rt_budget} s (hang or far slower code)"
+        try:
+            rt_info = json.loads(out_text.strip().splitlines()[-1])
         except (ValueError, IndexError):
-            faults.append(f"rt.{prop.lower()} failed: {(p.stderr or p.stdout)[-600:]}")
+            faults.append(f"rt.{prop.lower()} failed: {(err_text or out_text)[-600:]}")
         if rt_info:
             for f in rt_info.get("failures", []):
                 clause = f["clause"]
